@@ -107,25 +107,34 @@ theorem lf_short_recording_error (w ns : Nat) (hw : w % 12 = 0) (hgt : CONV_OVER
   have h0 : w ≠ 0 := by omega
   exact ⟨_, initParams_ok w h0 hw, entries_short _ hgt ns hns⟩
 
-/-- LF metadata of one shank file with `n` channels and `rows` rows: 2 500 Hz, type "lf", the declared
-channel counts add up to the `n` channels written (`0 + (n-1) + 1`), `nSavedChans = n` (rewritten for
-NP2.4; for NP2.1 the file keeps every saved channel, hypothesis `h21`), the declared size is the size
-written, and a reader that derives `ns` from the size and `nSavedChans` maps exactly `rows × n`. -/
-theorem lf_meta (v : Version) (m : Meta) (n rows sh : Nat) (hn : 2 ≤ n) (hsy : m.sns.2.2 = 1)
-    (h21 : v = .np21 → m.nSavedChans = n) :
-    let m' := writeMetaLf v m n (rows * n * 2) sh
+/-- LF metadata of one shank file written with that shank's own channel list `chns` (`n = len(chns)`
+columns) and `rows` rows: 2 500 Hz, type "lf", the declared channel counts add up to the `n` channels written
+(`0 + (n-1) + 1`, in `snsApLfSy` and `acqApLfSy` alike), `nSavedChans = n` (rewritten for NP2.4 together with
+`snsSaveChanSubset = 0:n-1` and `snsSaveChanSubset_orig` = the original indices `chns`; for NP2.1 the file
+keeps every saved channel, hypothesis `h21`), the declared size is the size written, and a reader that
+derives `ns` from the size and `nSavedChans` maps exactly `rows × n`. -/
+theorem lf_meta (v : Version) (m : Meta) (chns : List Nat) (rows sh : Nat) (hn : 2 ≤ chns.length)
+    (hsy : m.sns.2.2 = 1) (h21 : v = .np21 → m.nSavedChans = chns.length) :
+    let n := chns.length
+    let m' := writeMetaLf v m chns (rows * n * 2) sh
     m'.sampRate = (2500, 1) ∧ metaType m' = "lf" ∧
+    m'.sns = (0, n - 1, 1) ∧ m'.acq.1 = 0 ∧ m'.acq.2.1 = n - 1 ∧
     m'.sns.1 + m'.sns.2.1 + m'.sns.2.2 = n ∧ m'.nSavedChans = n ∧
+    (v = .np24 → m'.subset = some (0, n - 1) ∧ m'.subsetOrig = some chns) ∧ m'.shank = some sh ∧
     m'.fileSizeBytes = rows * m'.nSavedChans * 2 ∧ openShape m' (rows * n * 2) = (rows, n) := by
-  have hN : (writeMetaLf v m n (rows * n * 2) sh).nSavedChans = n := by
+  intro n
+  have hN : (writeMetaLf v m chns (rows * n * 2) sh).nSavedChans = n := by
     cases v with
     | np21 => simpa [writeMetaLf] using h21 rfl
-    | np24 => simp [writeMetaLf]
+    | np24 => simp [writeMetaLf, n]
   have h2500 : CONV_FS_LF = 2500 := by decide
-  refine ⟨by simp [writeMetaLf, h2500], ?_, ?_, hN, ?_, ?_⟩
+  refine ⟨by simp [writeMetaLf, h2500], ?_, ?_, by simp [writeMetaLf], by simp [writeMetaLf, n], ?_, hN,
+    ?_, by simp [writeMetaLf], ?_, ?_⟩
   · have : n - 1 ≠ 0 := by omega
-    simp [metaType, writeMetaLf, this]
+    simp [metaType, writeMetaLf, this, n] at *
+  · simp only [writeMetaLf, hsy]; rfl
   · simp only [writeMetaLf, hsy]; omega
+  · intro hv; subst hv; simp [writeMetaLf, n]
   · rw [hN]; simp [writeMetaLf]
   · simp only [openShape, hN]
     have : rows * n * 2 = rows * (2 * n) := by
@@ -134,15 +143,15 @@ theorem lf_meta (v : Version) (m : Meta) (n rows sh : Nat) (hn : 2 ≤ n) (hsy :
 
 /-- The files of a whole conversion (NP2.4: one per shank present in the shank map; NP2.1: the single
 shank): when the conversion succeeds, every LF file has `⌈ns/12⌉` rows, as many columns as its channel list,
-`rows · columns · 2` bytes, and metadata built by `writeMetaLf` for exactly that width and size (so
-`lf_meta` applies to it). -/
+`rows · columns · 2` bytes, and metadata built by `writeMetaLf` from THAT shank's own channel list and size
+(so `lf_meta` applies to it shank by shank, whatever the distribution of the channels over the shanks). -/
 theorem lf_files (v : Version) (w ns : Nat) (hw : w % 12 = 0) (hgt : CONV_OVERLAP < w) (hns : taper ≤ ns)
     (m : Meta) (shankMap : List Nat) (fs : List LfFile) :
     ∀ p, initParams w = .ok p → lfFiles v p ns m shankMap = .ok fs →
       fs.length = (shanksOf shankMap).length ∧
       ∀ f ∈ fs, f.rows = (ns + 11) / 12 ∧ f.nbytes = f.rows * f.chns.length * 2 ∧
         f.chns = shankChns shankMap f.sh m.nSavedChans m.sns.2.2 ∧
-        f.md = writeMetaLf v m f.chns.length f.nbytes f.sh := by
+        f.md = writeMetaLf v m f.chns f.nbytes f.sh := by
   intro p hp hfs
   have h0 : w ≠ 0 := by omega
   rw [initParams_ok w h0 hw] at hp
@@ -171,10 +180,10 @@ theorem lf_file_opens (v : Version) (w ns : Nat) (hw : w % 12 = 0) (hgt : CONV_O
   intro f hf h2 h21
   obtain ⟨_, hall⟩ := lf_files v w ns hw hgt hns m shankMap fs p hp hfs
   obtain ⟨hr, hb, _, hmd⟩ := hall f hf
-  have := lf_meta v m f.chns.length f.rows f.sh h2 hsy h21
+  have := lf_meta v m f.chns f.rows f.sh h2 hsy h21
   simp only at this
   rw [← hb, ← hmd] at this
-  obtain ⟨a, b, _, _, _, e⟩ := this
+  obtain ⟨a, b, _, _, _, _, _, _, _, _, e⟩ := this
   exact ⟨a, b, by rw [e, hr]⟩
 
 /-- Non-vacuity (relative to the extracted constants; with overlap 576: a 700-sample recording, window 588
@@ -193,10 +202,15 @@ example : (firstlast (CONV_OVERLAP + 124) (CONV_OVERLAP + 12) CONV_OVERLAP).leng
 example : ∃ p, initParams (CONV_OVERLAP + 12) = .ok p ∧ lfEntries p (taper - 44) = .error .valueErrorTaper :=
   lf_short_recording_error _ _ (by decide) (by decide) (by decide)
 /-- `lf_meta` on the NP2.4 fixture's numbers (97 channels per shank file) and on NP2.1 (385). -/
-example : let m : Meta := ⟨(384, 0, 1), (384, 0, 1), 385, 23100000, (30000, 1), none, none, true⟩
-    (writeMetaLf .np24 m 97 (2500 * 97 * 2) 3).sns = (0, 96, 1) ∧
-    openShape (writeMetaLf .np24 m 97 (2500 * 97 * 2) 3) (2500 * 97 * 2) = (2500, 97) ∧
-    openShape (writeMetaLf .np21 m 385 (2500 * 385 * 2) 0) (2500 * 385 * 2) = (2500, 385) := by
+example : let m : Meta := ⟨(384, 0, 1), (384, 0, 1), 385, 23100000, (30000, 1), none, none, none, true⟩
+    (writeMetaLf .np24 m (List.range 97) (2500 * 97 * 2) 3).sns = (0, 96, 1) ∧
+    openShape (writeMetaLf .np24 m (List.range 97) (2500 * 97 * 2) 3) (2500 * 97 * 2) = (2500, 97) ∧
+    openShape (writeMetaLf .np21 m (List.range 385) (2500 * 385 * 2) 0) (2500 * 385 * 2) = (2500, 385) := by
+  decide
+/-- Uneven shanks (scaled-down 144 / 48 / 96 / 96 layout: 12 / 4 / 8 / 8 channels + sync): every file has its own width. -/
+example :
+    let sm := List.replicate 12 0 ++ List.replicate 4 1 ++ List.replicate 8 2 ++ List.replicate 8 3
+    (shanksOf sm).map (fun sh => (shankChns sm sh 33 1).length) = [13, 5, 9, 9] := by
   decide
 
 end IblVerif.C12
